@@ -41,12 +41,14 @@ class ExprGen:
     of one generator instance distinctive (used by C16 so that a value crossing threads shows)."""
 
     def __init__(self, r: random.Random, decls: Dict[str, str], salt: int = 0,
-                 undeclared: bool = True, host: Optional[List[str]] = None) -> None:
+                 undeclared: bool = True, host: Optional[List[str]] = None,
+                 size_focus: bool = False) -> None:
         self.r = r
         self.decls = decls
         self.salt = salt
         self.undeclared = undeclared
         self.host = host or []
+        self.size_focus = size_focus
         self.macro_vars: List[Tuple[str, str]] = []  # (name, type) in scope
 
     # -- helpers --------------------------------------------------------------------------------
@@ -85,6 +87,9 @@ class ExprGen:
                 return v
             return str(self.const())
         k = r.randrange(12)
+        if self.size_focus and r.random() < 0.4:
+            lst = self.list_(d - 1)
+            return f"size({lst})" if r.random() < 0.6 else f"{lst}.size()"
         if k <= 2:
             op = r.choice(["+", "-", "*", "+", "-"])
             return f"({self.int_(d - 1)} {op} {self.int_(d - 1)})"
@@ -215,11 +220,14 @@ INVALID_TEXTS = ["1 +", "(x", "x ? 1", "[1, 2", "x +* 2", '"abc', "1 2", "a..b",
 
 
 def gen_expr(r: random.Random, decls: Dict[str, str], salt: int = 0, depth: Optional[int] = None,
-             invalid_share: float = 0.04, host: Optional[List[str]] = None) -> str:
+             invalid_share: float = 0.04, host: Optional[List[str]] = None,
+             size_focus: bool = False) -> str:
     if r.random() < invalid_share:
         return r.choice(INVALID_TEXTS)
-    g = ExprGen(r, decls, salt, host=host)
+    g = ExprGen(r, decls, salt, host=host, size_focus=size_focus)
     d = depth if depth is not None else r.choice([1, 2, 2, 3, 3, 4])
+    if size_focus:
+        return g.int_(max(d, 1)) if r.random() < 0.7 else g.bool_(max(d, 2))
     return g.any_(d)
 
 
